@@ -1,6 +1,7 @@
 (* Props/C05.v — C05 property theorems only. *)
 From Coq Require Import List ZArith NArith Bool Arith.
 From Verif Require Import Model.C05_Upload Model.C05_Chunk Proofs.C05 Proofs.C05c.
+From Verif Require Proofs.Pins05.   (* pinned source conditions: re-checked whenever the source changes *)
 Import ListNotations.
 Open Scope Z_scope.
 
